@@ -10,7 +10,7 @@ cSenders == {"a1", "a4"}
 
 \* the limiter is really consulted and really refuses: reachability witnesses (expected to be VIOLATED when checked as invariants)
 NeverRefused == ~(phase = "block" /\ \E tx \in Txs : /\ tx.type = "staking" /\ tx.auth = "valid" /\ tx.nonce = Nonce(s, tx.from)
-                                                       /\ Common0(s, tx) /\ Common1(s, tx) /\ ValidStaking(s, tx)
+                                                       /\ Common0(s, tx, TRUE) /\ Common1(s, tx) /\ ValidStaking(s, tx)
                                                        /\ Len(s.vol.lastVals) >= 3 /\ ~LimitStaking(s, tx).ok)
 NeverUpdated == s.vol.limiter.updated = 0
 =============================================================================
